@@ -9,7 +9,7 @@
 use monitors::fp::Fp;
 use monitors::gen::{biased_q, matmul, matvec};
 use monitors::prng::{Rng, H64};
-use monitors::report::{guarded, run_cases, take_poison, Config, Report, Sub};
+use monitors::report::{guarded, run_cases, take_poison, Config, Report, Sub, Violation};
 use monitors::scalar::Mon;
 use monitors::sym::{sym_reset, Op, Sym};
 use monitors::Q;
@@ -551,6 +551,149 @@ where
     sub.held(h.get(), true);
 }
 
+/// IEEE special values: scalar broadcast, element-wise operators and products on f32/f64 matrices
+/// whose entries (and scalars) are drawn from {NaN, +-inf, +-0, small integers}.  Per element the
+/// operators must return exactly what the scalar operator returns (inf * 0 is NaN, not 0); a
+/// product entry is NaN exactly when the textbook sum of products is (the set of terms decides
+/// that, not their order, and a fused multiply-add agrees), and equals it otherwise.  A shortcut
+/// keyed on a zero / one / identity operand shows here and nowhere in exact arithmetic.
+fn nonfinite<M, V, F>(sub: &mut Sub, cfg: &Config, idx: u64)
+where
+    F: num_traits::Float + std::fmt::Debug + 'static,
+    M: MatX<F, V = V>
+        + Copy
+        + std::ops::Mul<F, Output = M>
+        + std::ops::Div<F, Output = M>
+        + std::ops::Add<F, Output = M>
+        + std::ops::Sub<F, Output = M>
+        + std::ops::Add<M, Output = M>
+        + std::ops::Sub<M, Output = M>
+        + std::ops::Mul<M, Output = M>
+        + std::ops::Mul<V, Output = V>
+        + std::ops::MulAssign<F>
+        + std::ops::MulAssign<M>,
+    V: VecX<F> + Copy + std::ops::Mul<M, Output = V>,
+{
+    let n = M::N;
+    let tname = if std::mem::size_of::<F>() == 4 { "f32" } else { "f64" };
+    let mut rng = Rng::for_case(&format!("nonfinite/{}/{}", M::NAME, tname), cfg.case_seed(), idx);
+    let special = [f64::NAN, f64::INFINITY, f64::NEG_INFINITY, 0.0, -0.0, 1.0, -1.0, 2.0, -3.0, 0.5];
+    let mut draw = |rng: &mut Rng| -> F { F::from(special[rng.usize_below(special.len())]).unwrap() };
+    let ea: Vec<Vec<F>> = (0..n).map(|_| (0..n).map(|_| draw(&mut rng)).collect()).collect();
+    let eb: Vec<Vec<F>> = (0..n).map(|_| (0..n).map(|_| draw(&mut rng)).collect()).collect();
+    let ev: Vec<F> = (0..n).map(|_| draw(&mut rng)).collect();
+    let sc = draw(&mut rng);
+    let a = M::from_fn(|i, j| ea[i][j]);
+    let b = M::from_fn(|i, j| eb[i][j]);
+    let v = V::from_fn(|i| ev[i]);
+    let same = |x: F, y: F| (x.is_nan() && y.is_nan()) || (x == y && (x != F::zero() || x.is_sign_negative() == y.is_sign_negative()));
+    // for sums the sign of a zero depends on the order of accumulation: compare zeros with ==
+    let same_sum = |x: F, y: F| (x.is_nan() && y.is_nan()) || x == y;
+    let mut h = H64::new();
+    h.s(M::NAME).s(tname);
+    for x in ea.iter().flatten().chain(eb.iter().flatten()).chain(ev.iter()).chain(std::iter::once(&sc)) {
+        h.f(x.to_f64().unwrap());
+    }
+    let ctx = format!("a={:?} b={:?} v={:?} s={:?}", ea, eb, ev, sc);
+    let mut fails: Vec<Violation> = Vec::new();
+    macro_rules! per_elem {
+        ($api:expr, $got:expr, $exp:expr) => {{
+            let api = format!("{} for {}", $api, M::NAME);
+            sub.saw(&api);
+            match guarded(|| $got) {
+                Ok(g) => {
+                    for i in 0..n {
+                        for j in 0..n {
+                            let e: F = $exp(i, j);
+                            if !same(g.get(i, j), e) {
+                                fails.push(violation(PROP, sub, &api, tname, "wrong_value", "special_values", format!("{}: element ({},{}) = {:?}, the scalar operator gives {:?}", ctx, i, j, g.get(i, j), e), cfg.case_seed(), idx));
+                                break;
+                            }
+                        }
+                    }
+                }
+                Err(e) => fails.push(violation(PROP, sub, &api, tname, "panic", "special_values", format!("{}: panicked: {}", ctx, e), cfg.case_seed(), idx)),
+            }
+        }};
+    }
+    per_elem!("Mul<scalar>", a * sc, |i: usize, j: usize| ea[i][j] * sc);
+    per_elem!("MulAssign<scalar>", { let mut m = a; m *= sc; m }, |i: usize, j: usize| ea[i][j] * sc);
+    per_elem!("Div<scalar>", a / sc, |i: usize, j: usize| ea[i][j] / sc);
+    per_elem!("Add<scalar>", a + sc, |i: usize, j: usize| ea[i][j] + sc);
+    per_elem!("Sub<scalar>", a - sc, |i: usize, j: usize| ea[i][j] - sc);
+    per_elem!("Add", a + b, |i: usize, j: usize| ea[i][j] + eb[i][j]);
+    per_elem!("Sub", a - b, |i: usize, j: usize| ea[i][j] - eb[i][j]);
+    // products: textbook sums
+    let dot = |f: &dyn Fn(usize) -> (F, F)| -> F {
+        let mut s = F::zero();
+        for k in 0..n {
+            let (x, y) = f(k);
+            s = s + x * y;
+        }
+        s
+    };
+    macro_rules! product {
+        ($api:expr, $got:expr, $m:expr) => {{
+            let api = format!("{} for {}", $api, M::NAME);
+            sub.saw(&api);
+            match guarded(|| $got) {
+                Ok(g) => {
+                    for i in 0..n {
+                        for j in 0..n {
+                            let e = dot(&|k| (ea[i][k], eb[k][j]));
+                            if !same_sum($m(&g, i, j), e) {
+                                fails.push(violation(PROP, sub, &api, tname, "wrong_value", "special_values", format!("{}: element ({},{}) = {:?}, the sum of products is {:?}", ctx, i, j, $m(&g, i, j), e), cfg.case_seed(), idx));
+                                break;
+                            }
+                        }
+                    }
+                }
+                Err(e) => fails.push(violation(PROP, sub, &api, tname, "panic", "special_values", format!("{}: panicked: {}", ctx, e), cfg.case_seed(), idx)),
+            }
+        }};
+    }
+    product!("Mul", a * b, |g: &M, i: usize, j: usize| g.get(i, j));
+    product!("MulAssign", { let mut m = a; m *= b; m }, |g: &M, i: usize, j: usize| g.get(i, j));
+    {
+        let api = format!("Mul<{}> for {}", V::NAME, M::NAME);
+        sub.saw(&api);
+        match guarded(|| a * v) {
+            Ok(g) => {
+                for i in 0..n {
+                    let e = dot(&|k| (ea[i][k], ev[k]));
+                    if !same_sum(g.get(i), e) {
+                        fails.push(violation(PROP, sub, &api, tname, "wrong_value", "special_values", format!("{}: (a*v)[{}] = {:?}, the sum of products is {:?}", ctx, i, g.get(i), e), cfg.case_seed(), idx));
+                        break;
+                    }
+                }
+            }
+            Err(e) => fails.push(violation(PROP, sub, &api, tname, "panic", "special_values", format!("{}: panicked: {}", ctx, e), cfg.case_seed(), idx)),
+        }
+        let api = format!("Mul<{}> for {}", M::NAME, V::NAME);
+        sub.saw(&api);
+        match guarded(|| v * a) {
+            Ok(g) => {
+                for j in 0..n {
+                    let e = dot(&|k| (ev[k], ea[k][j]));
+                    if !same_sum(g.get(j), e) {
+                        fails.push(violation(PROP, sub, &api, tname, "wrong_value", "special_values", format!("{}: (v*a)[{}] = {:?}, the sum of products is {:?}", ctx, j, g.get(j), e), cfg.case_seed(), idx));
+                        break;
+                    }
+                }
+            }
+            Err(e) => fails.push(violation(PROP, sub, &api, tname, "panic", "special_values", format!("{}: panicked: {}", ctx, e), cfg.case_seed(), idx)),
+        }
+    }
+    if fails.is_empty() {
+        sub.sample(|| format!("{} [{}]: {} -> a*s row 0 = {:?}", M::NAME, tname, ctx, (0..n).map(|j| (a * sc).get(0, j)).collect::<Vec<_>>()));
+        sub.held(h.get(), true);
+    } else {
+        for v in fails {
+            sub.violated(v);
+        }
+    }
+}
+
 /// matrices over a product ring: the element type is itself a vek vector (element-wise + and *),
 /// a legitimate commutative ring; matrix*matrix, matrix*vector and vector*matrix must be the sums
 /// of products per lane of the element
@@ -696,6 +839,24 @@ fn main() {
             native_mm::<Cols3<i64>, Cols3<f64>>(s, &cfg, i);
             native_mm::<Rows4<i64>, Rows4<f64>>(s, &cfg, i);
             native_mm::<Cols4<i64>, Cols4<f64>>(s, &cfg, i);
+        });
+        rep.push(s);
+    }
+    {
+        let proto = Sub::new("values_nonfinite", "f32 and f64 matrices (2/3/4, both layouts) with entries and scalars drawn from {NaN, +-inf, +-0, +-1, 2, -3, 1/2}: M*s, M*=s, M/s, M+s, M-s, M+M, M-M per element exactly what the scalar operator returns (sign of zero included); M*M, M*=M, M*v, v*M: NaN exactly when the textbook sum of products is NaN, equal to it otherwise").with_floor(nq / 2);
+        let s = run_cases(&cfg, proto, nq, |s, i| {
+            nonfinite::<Rows2<f32>, Vec2<f32>, f32>(s, &cfg, i);
+            nonfinite::<Cols2<f32>, Vec2<f32>, f32>(s, &cfg, i);
+            nonfinite::<Rows3<f64>, Vec3<f64>, f64>(s, &cfg, i);
+            nonfinite::<Cols3<f64>, Vec3<f64>, f64>(s, &cfg, i);
+            nonfinite::<Rows4<f32>, Vec4<f32>, f32>(s, &cfg, i);
+            nonfinite::<Cols4<f32>, Vec4<f32>, f32>(s, &cfg, i);
+            nonfinite::<Rows4<f64>, Vec4<f64>, f64>(s, &cfg, i);
+            nonfinite::<Cols4<f64>, Vec4<f64>, f64>(s, &cfg, i);
+            nonfinite::<Rows2<f64>, Vec2<f64>, f64>(s, &cfg, i);
+            nonfinite::<Cols2<f64>, Vec2<f64>, f64>(s, &cfg, i);
+            nonfinite::<Rows3<f32>, Vec3<f32>, f32>(s, &cfg, i);
+            nonfinite::<Cols3<f32>, Vec3<f32>, f32>(s, &cfg, i);
         });
         rep.push(s);
     }
